@@ -134,6 +134,31 @@ impl<'a> PacketReader<'a> {
     }
 }
 
+#[cfg(feature = "verif-hooks")]
+impl PacketReader<'_> {
+    /// Feed every field that can influence future behaviour to `sink`.
+    pub(crate) fn verif_fingerprint(&self, sink: &mut dyn FnMut(&[u8])) {
+        sink(&(self.buffer.len() as u64).to_le_bytes());
+        sink(&(self.read_bytes as u64).to_le_bytes());
+        match self.packet_length {
+            Some(length) => {
+                sink(&[1]);
+                sink(&(length as u64).to_le_bytes());
+            }
+            None => sink(&[0]),
+        }
+        sink(&self.buffer[..self.read_bytes.min(self.buffer.len())]);
+    }
+
+    /// Overwrite every receive-buffer byte at or after the committed prefix.
+    pub(crate) fn verif_poison_dead_bytes(&mut self, value: u8) {
+        let start = self.read_bytes.min(self.buffer.len());
+        for byte in &mut self.buffer[start..] {
+            *byte = value;
+        }
+    }
+}
+
 #[cfg(test)]
 mod test {
     use super::PacketReader;
